@@ -1370,7 +1370,7 @@ func (ex *Exec) binop(st *State, site ssa.Instruction, op token.Token, xv, yv Va
 			// comparing two interface values panics when the identical dynamic type is not comparable
 			if !isConstLike(x) && !isConstLike(y) {
 				tx := app(SInt, "typeof", x)
-				ex.oblige(st, "cmp", "", site, implies(eq(tx, app(SInt, "typeof", y)), app(SBool, "tcomparable", tx)), "interface comparison of comparable dynamic types")
+				ex.oblige(st, "cmp", "", site, implies(eq(tx, app(SInt, "typeof", y)), or(app(SBool, "vcomparable", x), app(SBool, "vcomparable", y))), "interface comparison of identical dynamic types: one operand must be comparable in depth (a comparable struct can hold a slice in an interface field)")
 			}
 			if op == token.EQL {
 				return eq(x, y)
